@@ -830,7 +830,7 @@ type connectUnaryMarshaler struct {
 func (m *connectUnaryMarshaler) Marshal(message any) *Error {
 	data, err := m.codec.Marshal(message)
 	if err != nil {
-		return errorf(CodeInternal, "marshal message: %w", err)
+		return errorf(CodeInternal, "marshal message: %w", hideEOF(err))
 	}
 	// Can't avoid allocating the slice, but we can reuse it.
 	uncompressed := bytes.NewBuffer(data)
